@@ -20,9 +20,6 @@ struct Opts {
 }
 
 fn domains_for(p: &Prepared, o: &Opts) -> Vec<(Domain, bool)> {
-    if let Some((_, _, x)) = &o.replay {
-        return vec![(Domain::List(vec![*x]), false), (Domain::List(vec![*x]), true)];
-    }
     let native = matches!(p.eval, Evaluator::Native(_));
     // Rust debug profile: panics are slow, keep the quick domain
     let thorough = o.thorough && p.profile != "debug";
@@ -32,7 +29,14 @@ fn domains_for(p: &Prepared, o: &Opts) -> Vec<(Domain, bool)> {
         // release `char_lift` is `from_u32_unchecked`: feeding an invalid scalar would be UB in the harness itself
         d = Domain::CharScalars;
     }
-    let mut v = vec![(d.clone(), false)];
+    let mut v = vec![];
+    // --replay: the recorded input of the recorded (backend, instruction) first, then the normal domain
+    if let Some((b, i, x)) = &o.replay {
+        if &p.case.backend == b && (&p.case.inst == i || i.split('+').any(|k| k == p.case.inst)) {
+            v.push((Domain::List(vec![*x]), false));
+        }
+    }
+    v.push((d.clone(), false));
     // 32-bit pointer/length operand carried in a 64-bit type: also sign-extended
     if let Sem::Cast { steps, .. } = &p.sem {
         if matches!(steps[0].0, W::P | W::L) && p.operand_ty.bits() == 64 {
@@ -78,7 +82,7 @@ fn evaluate(prepared: &[Prepared], o: &Opts, skip: &BTreeSet<String>, before: &m
         out.key = key;
         sink(out);
     }
-    if o.casts && o.replay.is_none() {
+    if o.casts {
         let pairs = [("F32ToI32", "I32ToF32"), ("I32ToI64", "I64ToI32"), ("F32ToI64", "I64ToF32"), ("F64ToI64", "I64ToF64")];
         for (u, dn) in pairs {
             for up in prepared.iter().filter(|p| p.case.inst == u) {
@@ -255,10 +259,7 @@ fn main() {
         Some(s) => s.split(',').map(|x| x.trim().to_string()).collect(),
         None => extract::BACKENDS.iter().map(|s| s.to_string()).collect(),
     };
-    let (mut cases, temps) = cases_from(&ex, casts);
-    if let Some((b, i, _)) = &o.replay {
-        cases.retain(|c| &c.backend == b && (&c.inst == i || i.split('+').any(|p| p == c.inst)));
-    }
+    let (cases, temps) = cases_from(&ex, casts);
 
     let mut outcomes: Vec<Outcome> = vec![];
     let mut inconclusive: Vec<(String, String, String, String)> = vec![]; // backend, inst, template, why
@@ -267,9 +268,6 @@ fn main() {
     let mut ub: Vec<(String, String)> = vec![];
 
     for backend in &selected {
-        if o.replay.as_ref().map(|r| &r.0 != backend).unwrap_or(false) {
-            continue;
-        }
         let t_b = std::time::Instant::now();
         let cx = backend_ctx(&ex, backend);
         type_table.insert(backend.clone(), json!({"declared": cx.types.declared, "core": cx.types.core}));
@@ -323,9 +321,6 @@ fn main() {
             if !casts {
                 let mut seen = BTreeSet::new();
                 for (ob, why) in temps.iter().filter(|(ob, _)| &ob.backend == backend) {
-                    if o.replay.as_ref().map(|r| r.1 != ob.inst).unwrap_or(false) {
-                        continue;
-                    }
                     if backend == "go" {
                         match prepare_go_temp(ob, &cx) {
                             Ok(p) => {
